@@ -308,6 +308,8 @@ class Engine:
             return True
         if isinstance(v, Fraction):
             return v != 0
+        if hasattr(v, "__pyvc_truth__"):  # extension values (pyvc/ext_*.py) with their own truth value (e.g. symbolic strings)
+            return v.__pyvc_truth__(self)
         return bool(v)
 
     def sbool(self, z):
